@@ -41,7 +41,9 @@ NASTY_NAMES = ["", " ", "  lead", "trail ", "a b", "\"", "\\", "\\n", "\n", "\t"
                "​", "﻿", "ß", "SS", "İ", "i̇", "x" * 300, "\r\n", "\r", "null", "None", "Self",
                " ", "‮", "\x7f", "\x1b[0m"]
 
-GAPS = [1, 1, 1, 2, 2, 3, 7, 100, 1000, 10 ** 6, 2 ** 31, 2 ** 32, 2 ** 40, 2 ** 62]
+GAPS = [1, 1, 1, 2, 2, 3, 7, 100, 1000, 10 ** 6, 2 ** 31, 2 ** 32, 2 ** 40, 2 ** 62,
+        # multiples and neighbours of the type sizes (arithmetic done modulo a narrower width)
+        255, 256, 257, 65535, 65536, 65537, 2 ** 24, 2 ** 32 - 1, 2 ** 32 + 1]
 
 ENUM_ATTRS = ["#[allow(dead_code)]", "#[doc = \"an enum\"]", "/// doc comment on the enum", "#[non_exhaustive]",
               "#[cfg_attr(all(), allow(unused))]", "#[deprecated]", "#[must_use]", "#[doc(hidden)]",
@@ -132,15 +134,15 @@ def _fit_layout(lo, hi, n, cuts, gaps):
 DEFAULT_PROFILE = {
     "reprs": M.REPRS,
     "sizes": [("small", 80), ("medium", 10), ("large", 7), ("full8", 3)],
-    "shapes": ["gapless", "holes", "holes", "many"],
+    "shapes": ["gapless", "holes", "holes", "many", "lots"],
     "renames": 0.3,
     "dups": 0.08,
     "literals": "mixed",
     "attrs": 0.25,
     "vis": ["pub", "pub", "pub(crate)", "pub(super)", ""],
-    "orders": ["identity", "reverse", "perm", "perm"],
+    "orders": ["identity", "reverse", "perm", "perm", "by_name"],
     "cfg_off": 0.05,
-    "anchors": ["min", "max", "zero", "neg", "rand", "rand"],
+    "anchors": ["min", "max", "zero", "neg", "rand", "rand", "narrow_max", "narrow_min"],
 }
 
 
@@ -154,9 +156,14 @@ def profile(**kw):
 def enum_specs(draw, prof=None):
     prof = prof or DEFAULT_PROFILE
     r = draw(st.sampled_from(prof["reprs"]))
-    lo, hi = M.repr_domain(r)
     classes = [c for c, w in prof["sizes"] for _ in range(w)]
     cls = draw(st.sampled_from(classes))
+    if cls == "full8":
+        # an enum that fills (or nearly fills) an 8-bit repr: index arithmetic and lengths must not wrap
+        eight = [x for x in prof["reprs"] if x in ("u8", "i8")]
+        if eight:
+            r = draw(st.sampled_from(eight))
+    lo, hi = M.repr_domain(r)
     total = hi - lo + 1
     if cls == "small":
         n = draw(st.integers(1, 24))
@@ -165,7 +172,7 @@ def enum_specs(draw, prof=None):
     elif cls == "large":
         n = draw(st.integers(200, 700))
     elif cls == "full8":
-        n = 256 if M.repr_bits(r) == 8 else draw(st.integers(256, 400))
+        n = draw(st.sampled_from([256, 256, 256, 255, 254, 129, 128])) if M.repr_bits(r) == 8 else draw(st.integers(256, 400))
     else:
         n = int(cls)
     n = min(n, total)
@@ -174,6 +181,8 @@ def enum_specs(draw, prof=None):
         kwant = 1
     elif shape == "holes":
         kwant = draw(st.integers(2, min(n, 4)))
+    elif shape == "lots" and n >= 12:
+        kwant = draw(st.integers(10, min(n, 40)))       # code that switches strategy above some number of runs
     else:
         kwant = draw(st.integers(2, min(n, 9)))
     if kwant > 1:
@@ -195,6 +204,14 @@ def enum_specs(draw, prof=None):
     elif anchor == "neg" and signed:
         start = max(lo, -span - draw(st.integers(0, 3)))
         start = min(start, hi - span + 1)
+    elif anchor == "narrow_max":
+        # the enum's MAX sits exactly on the limit of a (possibly narrower) integer type
+        lim = [x for x in (2 ** 7 - 1, 2 ** 8 - 1, 2 ** 15 - 1, 2 ** 16 - 1, 2 ** 31 - 1, 2 ** 32 - 1, 2 ** 63 - 1)
+               if lo <= x - span + 1 and x <= hi]
+        start = (draw(st.sampled_from(lim)) - span + 1) if lim else draw(st.integers(lo, hi - span + 1))
+    elif anchor == "narrow_min":
+        lim = [x for x in (-2 ** 7, -2 ** 15, -2 ** 31, -2 ** 63, 0, 2 ** 8, 2 ** 16, 2 ** 32) if lo <= x and x + span - 1 <= hi]
+        start = draw(st.sampled_from(lim)) if lim else draw(st.integers(lo, hi - span + 1))
     else:
         start = draw(st.integers(lo, hi - span + 1))
     values = []
@@ -212,7 +229,9 @@ def enum_specs(draw, prof=None):
 
     # declaration order
     order_kind = draw(st.sampled_from(prof["orders"])) if n > 1 else "identity"
-    if order_kind == "identity":
+    if order_kind in ("identity", "by_name"):
+        order = list(range(n)) if order_kind == "identity" or not small else list(draw(st.permutations(list(range(n)))))
+    elif False:
         order = list(range(n))
     elif order_kind == "reverse":
         order = list(range(n - 1, -1, -1))
@@ -348,6 +367,14 @@ def enum_specs(draw, prof=None):
         variants.insert(at, {"ident": "CfgOff", "disc": None, "cfg_off": True})
         # an implicit successor of a removed variant continues from the previous *live* one,
         # which is exactly how the values above were assigned (removed variants are skipped).
+    if order_kind == "by_name" and n > 1:
+        # declaration sorted by (post-rename) name with discriminants in arbitrary order: the shape sorted(name) allows
+        live = [v for v in variants if not v.get("cfg_off")]
+        vals_now = M.RefEnum({"repr": r, "variants": live}).values
+        for v, val in zip(live, vals_now):
+            if v.get("disc") is None:
+                v["disc"] = str(val)
+        variants = sorted(live, key=lambda v: (v["rename"] if v.get("rename") is not None else v["ident"]).encode("utf-8"))
     spec = {"repr": r, "vis": draw(st.sampled_from(prof["vis"])), "ident": "E",
             "enum_attrs": enum_attrs, "variants": variants}
     if chance(draw, prof.get("repr_cfg_attr", 0.03)):
@@ -408,7 +435,7 @@ def configs(draw, spec, force=(), forbid=(), p_on=0.5, params=True, split=True, 
         if params and f in E.FN_FEATURES:
             if chance(draw, 0.2):
                 nm = draw(st.sampled_from(["%s_x" % f.lower(), "my%s" % f.capitalize(), "f_%s" % f, "ünï_%s" % f.lower(),
-                                           "get", "%s2" % f]))
+                                           "get", "%s2" % f, "__u_%s" % f.lower(), "_%s" % f.lower()]))
                 if nm not in used_names and nm not in E.ALL_FEATURES:
                     used_names.add(nm)
                     ps.append(["name", nm])
